@@ -24,6 +24,7 @@ func init() {
 	register(&PropertySpec{
 		ID: "C03",
 		Rules: []RuleSpec{
+			{"proof-key", "VerifyProof walks from NewHashNode(root) over a store of its own in strict mode, and stores every proof element under the double-SHA256 of that very element", ruleProofKey},
 			{"historic-root", "the historic VM's trie store is rooted at GetStateRoot(b.Index-1) of the block it executes in, over a private cache layer, and refuses garbage-collected heights", ruleHistoricRoot},
 			{"mpt-reader", "Trie methods read node records only through the mode-aware getFromStore (a retained root keeps every key contract storage holds, in every trie mode)", ruleMPTReader},
 			{"mpt-batch-source", "the MPT batch of a block is GetStorageChanges() of the very layer every execution of the block wrote to, taken after the last execution, and that layer is what is published", ruleMPTBatchSource},
@@ -123,6 +124,7 @@ func init() {
 	register(&PropertySpec{
 		ID: "C10",
 		Rules: []RuleSpec{
+			{"proof-key", "VerifyProof walks from NewHashNode(root) over a store of its own in strict mode, and stores every proof element under the double-SHA256 of that very element", ruleProofKey},
 			{"node-switch", "type switches dispatching over trie node kinds cover all five kinds or fail in their default arm", ruleNodeSwitch},
 			{"append-alias", "no append(node.field, ...) in package mpt whose result leaves the field (it would write into the spare capacity a node key shares with the path/batch array it was sliced from)", ruleAppendAlias},
 			{"mpt-reader", "Trie methods read node records only through the mode-aware getFromStore (reads after reload agree with content in every trie mode)", ruleMPTReader},
